@@ -255,6 +255,46 @@ def run_retry2(entries, req_a, req_b):
     return dict(viol=viol, obs=tuple(obs), log=['existing %r; %r and %r requested together, Tor refuses %r' % (entries, req_a, req_b, req_a)])
 
 
+def run_retry_foreign(entries, requested, foreign, later):
+    """Tor refuses the SETCONF that adds `requested`; then somebody else changes Tor's SOCKS ports to `foreign` (CONF_CHANGED);
+    then the caller asks for `later`, which Tor lacks: one SETCONF re-listing what Tor has NOW plus the new line"""
+    from refs import ctlcodec
+    viol = []
+    with World() as w:
+        impl = CfgImpl(w, [('SocksPort', list(entries))])
+        sim = impl.sim
+        sim.override('SETCONF', (513, [('line', 'Unacceptable option value: rejected by the harness')]))
+        r1 = DRec(impl.cfg.create_socks_endpoint(w.reactor, requested))
+        sim.pump()
+        sim.conf['SocksPort'] = list(foreign)
+        sim.event_bytes(ctlcodec.encode_event('CONF_CHANGED', 'multi', [''] + ['SocksPort=%s' % e for e in foreign]))
+        sim.pump()
+        base = len(sim.commands)
+        r2 = DRec(impl.cfg.create_socks_endpoint(w.reactor, later))
+        sim.pump()
+        setconfs = [c for c in sim.commands[base:] if c.upper().startswith('SETCONF')]
+        feat = 'refused-then-foreign-change'
+        if len(r2.fires) == 1 and r2.kind == 'ok' and later not in sim.conf['SocksPort']:
+            viol.append(('endpoint-for-unconfigured-port', feat,
+                         'adding %r was refused; Tor then reported %r; the request for %r returned an endpoint having sent %r; Tor has %r'
+                         % (requested, foreign, later, setconfs, sim.conf['SocksPort'])))
+        if len(setconfs) != 1:
+            viol.append(('not-one-setconf', feat, 'Tor has %r (requested %r): wrote %r' % (foreign, later, setconfs)))
+        else:
+            vals = [v for k, v in kvline.parse(setconfs[0].split(' ', 1)[1])]
+            if vals != list(foreign) + [later]:
+                viol.append(('existing-entries-not-relisted-verbatim', feat, 'Tor has %r; the request for %r sent %r' % (list(foreign), later, vals)))
+        for e in foreign:
+            if e not in sim.conf['SocksPort']:
+                viol.append(('listener-lost', feat, 'Tor had SOCKSPort %r; after the client\'s SETCONF it has %r' % (foreign, sim.conf['SocksPort'])))
+                break
+        errs = w.errors()
+        if errs:
+            viol.append(('logged-error', errs[0][1], '%r' % (errs[:1],)))
+        obs = (r1.summary()[0], r2.summary()[0], tuple(setconfs))
+    return dict(viol=viol, obs=obs, log=['existing %r; %r refused; Tor reports %r; %r requested' % (entries, requested, foreign, later)])
+
+
 # --------------------------------------------------------------------------
 
 OUTCOMES = ['refused', 'timeout', 'success', 'socks-error', 'lost-after-connect']
@@ -387,6 +427,11 @@ def run_task(param, acc):
             for requested in ('9999', 'unix:/new', '9998 IsolateDestAddr'):
                 r = run_retry(entries, requested)
                 rec_exec(acc, ('retry', tuple(entries), requested), r, dict(fam='retry', entries=entries, requested=requested), cost=len(entries) + 2)
+                for foreign in (['9050 IsolateDestAddr', '9997 SessionGroup=2'], ['unix:/other']):
+                    for later in ('5555', requested):
+                        r = run_retry_foreign(entries, requested, foreign, later)
+                        rec_exec(acc, ('retryf', tuple(entries), requested, tuple(foreign), later), r,
+                                 dict(fam='retryf', entries=entries, requested=requested, foreign=foreign, later=later), cost=len(entries) + 6)
             for a, b in itertools.permutations(('9999', 'unix:/new', '9998 IsolateDestAddr'), 2):
                 r = run_retry2(entries, a, b)
                 rec_exec(acc, ('retry2', tuple(entries), a, b), r, dict(fam='retry2', entries=entries, a=a, b=b), cost=len(entries) + 4)
@@ -428,6 +473,8 @@ def replay(p):
         r = run_guess(tuple(p['seq']))
     elif p['fam'] == 'retry':
         r = run_retry(p['entries'], p['requested'])
+    elif p['fam'] == 'retryf':
+        r = run_retry_foreign(p['entries'], p['requested'], p['foreign'], p['later'])
     elif p['fam'] == 'retry2':
         r = run_retry2(p['entries'], p['a'], p['b'])
     else:
